@@ -13,6 +13,43 @@ import (
 
 func init() {
 	extraChecks["C15"] = append(extraChecks["C15"], boundedUU)
+	extraChecks["C08"] = append(extraChecks["C08"], boundedTornCache)
+}
+
+// boundedTornCache: txtar/pem/x509 are trusted library parsers out of the
+// contracts' reach, so the crash-prefix and corruption clauses of C08 get a
+// bounded stand-in through the real GetCertificate.
+func boundedTornCache(w *World, tier string, seed int64) extraResult {
+	var res extraResult
+	env := []string{"VERIF_C08_FILES=1", "VERIF_C08_STRIDE=13"}
+	bound := "1 generated cache file x every prefix length, every 13th byte x 3 corruptions"
+	if tier == "thorough" {
+		env = []string{"VERIF_C08_FILES=4", "VERIF_C08_STRIDE=1"}
+		bound = "4 generated cache files x every prefix length, every byte x 3 corruptions"
+	}
+	out, reproduced := runOverlayTest("lib/sstls", filepath.Join(verifRoot, "replay", "drivers", "sstls_torncache_test.go"), "TestVerifBoundedTornCache", env)
+	entry := map[string]any{"name": "bounded.sstls/torn_or_corrupted_cache", "what": "GetCertificate on every prefix and on single-byte corruptions of a real cache file: error or the original key, file never rewritten; nested directories and file owner-only; a deleted cache is regenerated and then stable", "bound": bound, "label": "bounded"}
+	if m := reBounded.FindStringSubmatch(out); m != nil {
+		entry["counts"] = strings.TrimSpace(m[1])
+	}
+	ob := &Obligation{Name: "bounded.sstls/torn_or_corrupted_cache", Kind: "bounded", Func: "bounded.sstls", Props: []string{"C08"}, Backend: "ast", Solver: "go-test-overlay (bounded)"}
+	switch {
+	case reproduced:
+		ob.Verdict = "counterexample"
+		i := strings.Index(out, "REPRODUCED")
+		ob.Detail = firstLines(out[i:], 3)
+	case strings.Contains(out, "--- PASS"):
+		ob.Verdict = "discharged"
+		ob.ASTOK = true
+	default:
+		ob.Verdict = "undischarged"
+		ob.Detail = "bounded driver did not run: " + firstLines(out, 4)
+	}
+	entry["verdict"] = ob.Verdict
+	res.Bounded = append(res.Bounded, entry)
+	res.Obligations = append(res.Obligations, ob)
+	res.Notes = append(res.Notes, "torn-write and corruption clauses: bounded stand-in through the real GetCertificate ("+bound+"), not counted among the discharged obligations")
+	return res
 }
 
 var reBounded = regexp.MustCompile(`VERIF-BOUNDED (.*)`)
